@@ -214,8 +214,10 @@ def check_property(prop, tier, repo, record=False, verbose=False):
         "wall_s": round(time.time() - t0, 2),
         "violations": len(vio_lines),
     }
-    os.makedirs(os.path.join(VERIF, "evidence"), exist_ok=True)
-    json.dump(evidence, open(os.path.join(VERIF, "evidence", prop + ".json"), "w"), indent=1, default=str)
+    # runs against a scratch copy (--repo, used by the seeding tools) must not overwrite the evidence of /repo
+    evdir = os.path.join(VERIF, "evidence") if os.path.realpath(repo) == os.path.realpath(os.environ.get("PYVC_HOME_REPO", "/repo")) else os.path.join(VERIF, "evidence", "scratch")
+    os.makedirs(evdir, exist_ok=True)
+    json.dump(evidence, open(os.path.join(evdir, prop + ".json"), "w"), indent=1, default=str)
     # --- verdict ------------------------------------------------------------------------
     for l in lines:
         print(l)
